@@ -65,7 +65,8 @@ def _live_tags(x, seen=None):
 def has_lazy_meta(r):
     """A tagifiable that is also a metadata node is invisible until expanded: asking for markup neither emits
     anything for it nor is required to raise."""
-    if r["k"] == "tf" and r.get("as") in ("meta", "str"):
+    if r["k"] == "tf" and r.get("as") in ("meta", "str", "tagsub"):
+        # (an expanding Tag subclass is, un-expanded, a tag and renders as one)
         # (a tagifiable that is ALSO a plain string is, un-expanded, just that string: text children are C02's business)
         return True
     if r["k"] in ("tag", "list"):
@@ -76,7 +77,7 @@ def has_lazy_meta(r):
 def has_raw_tf(r):
     """tf (without _repr_html_) present in the raw tree (not inside another tf's payload)."""
     if r["k"] == "tf":
-        return r.get("as") not in ("meta", "str")
+        return r.get("as") not in ("meta", "str", "tagsub")
     if r["k"] in ("tag", "list"):
         return any(has_raw_tf(c) for c in r["c"])
     return False
@@ -150,7 +151,7 @@ def check_case(ctx, r):
         tags_in = [x for x in _live_tags(root_c)]
         if tags_in:
             target = tags_in[ctx.rng.randrange(len(tags_in))]
-            if target.name not in ("script", "style", "head", "html"):
+            if target.name not in ("script", "style", "head", "html") and type(target) is not gen.ExpandingTag:
                 late = {"k": "tf", "ret": "list", "c": [{"k": "text", "s": "late;"}, {"k": "dep", "name": "latedep", "version": "3.0", "script": [{"src": "late.js"}]}]}
                 target.append(gen.build(late))
                 dc = doc_a.render()
@@ -239,6 +240,8 @@ def rand_node(rng, ids, depth, kind=None):
     if kind == "html":
         return {"k": "html", "s": "<i>" + ids.next("h") + "</i>" if rng.random() < 0.93 else ""}
     if kind == "obj":
+        if rng.random() < 0.3:
+            return {"k": "inst", "has": "repr"}   # same class as the instance-level tagifiables, but only self-rendering
         return {"k": "obj", "s": "<u>" + ids.next("o") + "</u>"}
     if kind == "meta":
         return {"k": "meta"}
@@ -249,8 +252,8 @@ def rand_node(rng, ids, depth, kind=None):
         return {"k": "list", "t": rng.choice(["list", "tuple", "taglist"]), "c": [rand_node(rng, ids, depth - 1) for _ in range(rng.randint(0, 3))]}
     if kind in ("tf", "tfobj"):
         ret = rng.choice(["list", "list", "list", "one"])
-        as_ = rng.choice([None] * 8 + ["str", "meta", "stored", "stored", "sublist", "seq"]) if kind == "tf" else None
-        if as_ == "sublist":
+        as_ = rng.choice([None] * 8 + ["str", "meta", "stored", "stored", "sublist", "seq", "inst", "inst", "tagsub"]) if kind == "tf" else None
+        if as_ in ("sublist", "tagsub"):
             ret = "list"
         if ret == "one":
             c = [rand_node(rng, ids, depth - 1, rng.choice(["tag", "text", "html", "dep", "meta", "tf", "empty"]))]
